@@ -146,6 +146,9 @@ pub trait DynWriter {
     /// optimised or default copy_from, from any reader of the same endianness
     fn copy_from(&mut self, r: &mut dyn DynReader, n: u64) -> Out<()>;
     fn is_le(&self) -> bool;
+    /// abandon the writer without running its destructor (which flushes and unwraps):
+    /// used for writers whose backend has already failed
+    fn forget(&mut self);
 }
 
 pub trait DynReader {
@@ -492,6 +495,11 @@ impl<E: Endianness, BW: AllWrite<E>> DynWriter for WrObj<E, BW> {
     }
     fn is_le(&self) -> bool {
         E::IS_LITTLE
+    }
+    fn forget(&mut self) {
+        if let Some(w) = self.w.take() {
+            std::mem::forget(w);
+        }
     }
 }
 
